@@ -56,7 +56,7 @@ BOUNDS = {
         "layouts": "72 + 21 with a line-break look-alike (FF VT FS NEL LS PS lone-CR) in the preceding text",
         "tails": 2,
         "paths": 4,
-        "html_error_template": "string path, LF documents without tail; string and file paths for the look-alike layouts without tail",
+        "html_error_template": "string path, LF documents without tail; look-alike layouts without tail: string path, and file path for the LF column-1 ones; blank-region variants only there",
         "richtraceback_and_text_error_template": "string and file paths (all four thorough)",
         "programs": [
             {"weights": [0, 1, 2], "node_kinds": 13, "faults": "all"},
@@ -64,7 +64,7 @@ BOUNDS = {
         ],
     },
     "thorough": {
-        "layouts": "72 + 108 with a line-break look-alike (FF VT FS GS RS NEL LS PS lone-CR) in the preceding text",
+        "layouts": "72 + 54 with a line-break look-alike (FF VT FS GS RS NEL LS PS lone-CR) in the preceding text",
         "tails": 3,
         "paths": 4,
         "html_error_template": "all paths, all documents",
@@ -356,7 +356,7 @@ def layouts(tier="quick"):
         for i in range(7):
             out += [(0, "\n", "special%d" % i, "col1"), (0, "\r\n", "special%d" % i, "col1"), (1, "\n", "special%d" % i, "after3")]
     else:
-        out += list(itertools.product((0, 1), EOLS, ["special%d" % i for i in range(len(SPECIALS))], PLACE))
+        out += list(itertools.product((0,), EOLS, ["special%d" % i for i in range(len(SPECIALS))], PLACE))
     return out
 
 
@@ -862,9 +862,9 @@ def run_a(tier, seed, F, sh, ns, st):
                 if not quick:
                     html_paths = PATHS
                 elif special:
-                    html_paths = ("string", "file") if tail == "" else ()
+                    html_paths = () if tail != "" else ("string", "file") if layout[1] == "\n" and layout[3] == "col1" else ("string",)
                 else:
-                    html_paths = ("string",) if tail == "" and layout[1] == "\n" else ()
+                    html_paths = ("string",) if tail == "" and layout[1] == "\n" and "_gap_" not in f["name"] else ()
                 check_doc(text, exp, PATHS, html_paths, st, "A", light_paths=("lookup", "moddir") if quick else ())
                 if len(seen) % 499 == 1:
                     st.sample({"space": "A", "fault": f["name"], "layout": list(layout), "text": text, "expect": {"lineno": exp["lineno"], "pos": exp["cols"]}})
@@ -924,7 +924,7 @@ def replay(case):
 
 LEVEL_TEXT = (
     "Every one of 199 planted fault constructs (all classes of the statement, with line variants, incl. not-strictly-empty blank regions after <% <%! ${) is compiled behind each of 72 layout prefixes "
-    "plus 21 (108 thorough) prefixes whose text holds a line-break look-alike (FF, VT, FS, NEL, LS, PS, lone CR), "
+    "plus 21 (54 thorough) prefixes whose text holds a line-break look-alike (FF, VT, FS, NEL, LS, PS, lone CR), "
     "2-3 tails and through all four construction paths, and at every node boundary of every template program of weight <= 2 over 13 node kinds "
     "(<= 3 over 14 kinds thorough; 23 core faults one weight deeper over 6 resp. 9 kinds); class, filename, source, lineno, pos, RichTraceback, text and html error templates and path agreement are "
     "compared with values computed by the planter. Complete within those bounds; no sampling."
